@@ -15,8 +15,17 @@
       what does hold: close_enabled_iff_unlocked, parked_needs_two_unaccepted
   "later Accept calls return an error" is false while one forward is buffered:
       accept_after_close_may_succeed                                           (second finding)
+
+  The REPAIRED relation `nextFixed` (Model/C37_Fixed.lean; invariant InvF in Proofs/C37_Fixed.lean) — the
+  specification a repair has to meet:
+      no_panic_fixed, delivered_only_exact_match_fixed, unmatched_rejected_fixed, no_stranded_forward_fixed
+      close_step_enabled_fixed, close_returns_fixed (CloseReturns nextFixed; compare not_close_returns)
+      accept_after_close_errors_fixed, close_closes_own_channel_fixed, closed_stays_closed_fixed,
+      accept_after_close_errors_fixed_run
+      witness_schedule_completes_fixed, accept_after_close_schedule_fixed (the two finding schedules, repaired)
 -/
 import XC.Proofs.C37
+import XC.Proofs.C37_Fixed
 namespace XC.C37
 
 /-! ## safety -/
@@ -790,5 +799,304 @@ theorem closed_stays_closed_empty_run {s s' : State} (hr : Reachable s) (lid : N
       simp [hst] at hs
       exact ih (ReachableBy.step a hr hst) (closed_stays_closed_empty a (inv_reachable hr) lid h hst) hs
 
+
+
+/-! # The repaired step relation `nextFixed` (XC.Model.C37_Fixed): what a repair must achieve -/
+
+/-! ## safety of the repaired relation -/
+
+theorem no_panic_fixed {s : State} (h : ReachableF s) : Ev.panic ∉ s.log := by
+  intro hm
+  exact ((invF_reachable h).log_ok _ hm).1 rfl
+
+theorem delivered_only_exact_match_fixed {s : State} (h : ReachableF s) (c lid : Nat) (f : Fwd)
+    (hm : Ev.accept c lid (some f) ∈ s.log) : ∃ l, getLst s.lsts lid = some l ∧ l.key = f.key :=
+  ((invF_reachable h).log_ok _ hm).2 c lid f rfl
+
+/-- nothing is ever left sitting in a listener that has been closed: it was rejected by the drain -/
+theorem no_stranded_forward_fixed {s : State} (h : ReachableF s) (lid : Nat) (l : Lst)
+    (hl : getLst s.lsts lid = some l) (hc : l.closed = true) : l.buf = none :=
+  (invF_reachable h).closed_empty lid l hl hc
+
+/-- no matching entry ⇒ Prohibited, nothing delivered (same as the code as written) -/
+theorem unmatched_rejected_fixed (s : State) (n : Net) (f : Fwd) (q : List Fwd)
+    (hq : (s.h n).queue = f :: q) (hpc : (s.h n).pc = none) (hparse : f.parses = true)
+    (hno : ∀ lid, (f.key, lid) ∉ s.entries) (halive : s.alive = true) :
+    ∃ s', nextFixed s (.hTake n) = some s' ∧ s'.log = .reject f.id 1 :: s.log ∧ s'.lsts = s.lsts := by
+  have hfind : findEntry s.entries f.key = none := by
+    cases hf : findEntry s.entries f.key with
+    | none => rfl
+    | some lid => exact absurd (findEntry_mem hf) (hno lid)
+  refine ⟨emitWire (s.setH n { s.h n with queue := q }) (.reject f.id 1), ?_, ?_, ?_⟩
+  · simp [nextFixed, hq, hpc, hparse, hfind]
+  · simp [emitWire, halive, emit]
+  · simp [emitWire, halive, emit]
+
+/-! ## liveness: Close returns -/
+
+/-- In the repaired relation the step of a pending Close is enabled in EVERY state in which its listener
+    exists: there is no state in which a handler (or anybody) keeps the forward-list mutex across steps. -/
+theorem close_step_enabled_fixed (s : State) (call lid : Nat) (ok : Bool) (l : Lst)
+    (hcl : s.closers.find? (·.1 = call) = some (call, lid, ok)) (hl : getLst s.lsts lid = some l) :
+    (nextFixed s (.closeRun call)).isSome = true := by
+  simp [nextFixed, hcl, hl]
+
+/-- the liveness clause of C37 ("closing a listener returns"), for a step relation -/
+def CloseReturns (step : State → Act → Option State) : Prop :=
+  ∀ s, ReachableBy step init s → ∀ c ∈ s.closers, ∃ acts s', (∀ a ∈ acts, isInternal a = true) ∧
+    runFrom step s acts = some s' ∧ c ∉ s'.closers
+
+/-- **close_returns_fixed**: from every reachable state with a Close pending, that Close completes by the
+    client's own goroutines — in fact by its own single step, with no help from the application. -/
+theorem close_returns_fixed : CloseReturns nextFixed := by
+  intro s hr c hc
+  obtain ⟨call, lid, ok⟩ := c
+  have hi := invF_reachable hr
+  -- the first pending closer with this call id
+  cases hf : s.closers.find? (·.1 = call) with
+  | none =>
+    have := List.find?_eq_none.mp hf (call, lid, ok) hc
+    simp at this
+  | some x =>
+    obtain ⟨c1, lid1, ok1⟩ := x
+    have hx : (c1, lid1, ok1) ∈ s.closers := List.mem_of_find?_eq_some hf
+    have hc1 : c1 = call := by
+      have := List.find?_some hf
+      simpa using this
+    subst hc1
+    have hsome := hi.closers_lst _ hx
+    cases hl : getLst s.lsts lid1 with
+    | none => simp [hl] at hsome
+    | some l =>
+      have hen : ∃ s', nextFixed s (.closeRun c1) = some s' ∧ s'.closers = s.closers.filter (·.1 ≠ c1) := by
+        simp only [nextFixed, hf, hl]
+        refine ⟨_, rfl, ?_⟩
+        simp only [emit]
+        split
+        · rfl
+        · unfold retire
+          simp only
+          split
+          · rfl
+          · split
+            · rfl
+            · split
+              · rfl
+              · unfold emitWire; simp only; split <;> rfl
+      obtain ⟨s', hs', hcl'⟩ := hen
+      refine ⟨[.closeRun c1], s', by simp [isInternal], by simp [runFrom, hs'], ?_⟩
+      rw [hcl']
+      simp
+
+/-! ## Accept after Close -/
+
+/-- **accept_after_close_errors_fixed**: Accept on a listener whose `done` is closed returns an error — whatever
+    was or was not buffered (`done` is checked first; compare accept_after_close_may_succeed for the code as written). -/
+theorem accept_after_close_errors_fixed (s : State) (call lid : Nat) (l : Lst)
+    (hacc : s.acceptors.find? (·.1 = call) = some (call, lid))
+    (hl : getLst s.lsts lid = some l) (hclosed : l.closed = true) :
+    ∃ s', nextFixed s (.accRun call) = some s' ∧ s'.log = .accept call lid none :: s.log := by
+  refine ⟨emit { s with acceptors := s.acceptors.filter (·.1 ≠ call) } (.accept call lid none), ?_, ?_⟩
+  · simp [nextFixed, hacc, hl, hclosed]
+  · simp [emit]
+
+/-- Close retires the listener it was called on (registered, unique address): `done` closed, buffer drained and
+    the drained forward answered with Prohibited. -/
+theorem close_closes_own_channel_fixed {s s' : State} (call lid : Nat) (ok : Bool) (l : Lst)
+    (hcl : s.closers.find? (·.1 = call) = some (call, lid, ok)) (hl : getLst s.lsts lid = some l)
+    (hopen : l.closed = false) (hfirst : findEntry s.entries l.key = some lid)
+    (hs : nextFixed s (.closeRun call) = some s') :
+    ∃ l', getLst s'.lsts lid = some l' ∧ l'.closed = true ∧ l'.buf = none := by
+  simp only [nextFixed, hcl, hl] at hs
+  cases hs
+  simp only [hfirst, retire, hl, hopen, emit, Bool.false_eq_true, ↓reduceIte]
+  have key : ∀ t : State, t.lsts = updLst s.lsts lid (fun l => { l with closed := true, buf := none }) →
+      ∃ l', getLst t.lsts lid = some l' ∧ l'.closed = true ∧ l'.buf = none := by
+    intro t ht
+    rw [ht, getLst_updLst _ _ _ _ (by simp), hl]
+    simp [getLst_id hl]
+  split
+  · exact key _ rfl
+  · apply key
+    unfold emitWire; simp only; split <;> rfl
+
+def ClosedL (ls : List Lst) (lid : Nat) : Prop := ∃ l, getLst ls lid = some l ∧ l.closed = true
+
+theorem closedL_updLst {ls : List Lst} {lid lid' : Nat} {g : Lst → Lst} (hid : ∀ l, (g l).id = l.id)
+    (hg : ∀ l, l.closed = true → (g l).closed = true) (h : ClosedL ls lid) : ClosedL (updLst ls lid' g) lid := by
+  obtain ⟨l, hl, hc⟩ := h
+  rw [ClosedL, getLst_updLst _ _ _ _ hid, hl]
+  simp only [Option.map_some, Option.some.injEq, exists_eq_left']
+  split
+  · exact hg l hc
+  · exact hc
+
+theorem closedL_retire {s : State} {lid lid' : Nat} (h : ClosedL s.lsts lid) : ClosedL (retire s lid').lsts lid := by
+  unfold retire
+  split
+  · exact h
+  · split
+    · exact h
+    · have : ClosedL (updLst s.lsts lid' (fun l => { l with closed := true, buf := none })) lid :=
+        closedL_updLst (by simp) (by simp) h
+      split
+      · exact this
+      · unfold emitWire; simp only; split <;> exact this
+
+theorem closedL_retireAll {s : State} {lid : Nat} (es : List (Key × Nat)) (h : ClosedL s.lsts lid) :
+    ClosedL (retireAll s es).lsts lid := by
+  induction es generalizing s with
+  | nil => exact h
+  | cons a t ih =>
+    obtain ⟨k, lid'⟩ := a
+    simp only [retireAll]
+    exact ih (closedL_retire h)
+
+/-- a retired listener stays retired: `done` is never re-opened -/
+theorem closed_stays_closed_fixed {s s' : State} (a : Act) (lid : Nat)
+    (h : ClosedL s.lsts lid) (hs : nextFixed s a = some s') : ClosedL s'.lsts lid := by
+  cases a with
+  | listenCall c k d =>
+    simp only [nextFixed] at hs
+    split at hs
+    · cases hs; exact h
+    · split at hs <;> (cases hs; exact h)
+  | fwdSend f =>
+    simp only [nextFixed] at hs
+    split at hs
+    · cases hs
+    · split at hs
+      · cases hs; rw [emitWire_lsts]; exact h
+      · cases hs; rw [setH_lsts]; exact h
+  | acceptCall c l =>
+    simp only [nextFixed] at hs
+    split at hs
+    · cases hs
+    · cases hs; exact h
+  | closeCall c l b =>
+    simp only [nextFixed] at hs
+    split at hs
+    · cases hs
+    · cases hs; exact h
+  | disconnect =>
+    simp only [nextFixed] at hs
+    split at hs
+    · cases hs
+    · cases hs; exact h
+  | addRun c =>
+    simp only [nextFixed] at hs
+    split at hs
+    · cases hs
+    · split at hs
+      · cases hs
+      · cases hs
+        obtain ⟨l, hl, hc⟩ := h
+        exact ⟨l, by simp only [emit]; exact getLst_append_of_some hl, hc⟩
+  | hTake n =>
+    simp only [nextFixed] at hs
+    split at hs
+    · cases hs
+    · cases hs
+    · split at hs
+      · cases hs; rw [emitWire_lsts, setH_lsts]; exact h
+      · split at hs
+        · cases hs; rw [emitWire_lsts, setH_lsts]; exact h
+        · cases hs; rw [setH_lsts]; exact h
+  | hSend n =>
+    simp only [nextFixed] at hs
+    split at hs
+    · cases hs
+    · split at hs
+      · cases hs
+      · split at hs
+        · cases hs; rw [emitWire_lsts, setH_lsts]; exact h
+        · split at hs
+          · cases hs
+            exact closedL_updLst (by simp) (by simp) h
+          · cases hs
+  | accRun c =>
+    simp only [nextFixed] at hs
+    split at hs
+    · cases hs
+    · split at hs
+      · cases hs
+      · split at hs
+        · cases hs; exact h
+        · split at hs
+          · split at hs
+            · cases hs; exact closedL_updLst (by simp) (by simp) h
+            · cases hs; exact closedL_updLst (by simp) (by simp) h
+          · cases hs
+  | closeRun c =>
+    simp only [nextFixed] at hs
+    split at hs
+    · cases hs
+    · split at hs
+      · cases hs
+      · cases hs
+        simp only [emit]
+        split
+        · exact h
+        · exact closedL_retire (s := { s with closers := _, entries := _ }) h
+  | closeAllRun =>
+    simp only [nextFixed] at hs
+    split at hs
+    · cases hs
+    · cases hs
+      exact closedL_retireAll s.entries h
+
+/-- …so once Close has retired a listener, every Accept issued at any later time returns an error -/
+theorem accept_after_close_errors_fixed_run {s s' : State} (lid : Nat) (acts : List Act)
+    (h : ClosedL s.lsts lid) (hs : runFrom nextFixed s acts = some s') (call : Nat)
+    (hacc : s'.acceptors.find? (·.1 = call) = some (call, lid)) :
+    ∃ s'', nextFixed s' (.accRun call) = some s'' ∧ s''.log = .accept call lid none :: s'.log := by
+  have hcl : ClosedL s'.lsts lid := by
+    induction acts generalizing s with
+    | nil => simp [runFrom] at hs; subst hs; exact h
+    | cons a as ih =>
+      simp only [runFrom] at hs
+      cases hst : nextFixed s a with
+      | none => simp [hst] at hs
+      | some s1 =>
+        simp [hst] at hs
+        exact ih (closed_stays_closed_fixed a lid h hst) hs
+  obtain ⟨l, hl, hc⟩ := hcl
+  exact accept_after_close_errors_fixed s' call lid l hacc hl hc
+
+
+macro "runF_simp" : tactic => `(tactic|
+  simp [runF, runFrom, nextFixed, init, emit, emitWire, State.h, State.setH, findEntry, removeFirst, getLst,
+    retire, retireAll, updLst, fw])
+
+/-- the F3 schedule on the repaired relation: Listen, two opens, no Accept, Close — Close returns, the buffered
+    forward and the one held by the handler are both answered with Prohibited, nothing is stranded -/
+theorem witness_schedule_completes_fixed (k : Key) :
+    ∃ s, ReachableF s ∧ s.closers = [] ∧
+      s.log = [.reject 2 1, .close 3 0 true, .reject 1 1, .listen 0 0] := by
+  have h : ∃ s, runF [.listenCall 0 k false, .addRun 0, .fwdSend (fw 1 k), .hTake k.net, .hSend k.net,
+      .fwdSend (fw 2 k), .hTake k.net, .closeCall 3 0 true, .closeRun 3, .hSend k.net] = some s ∧
+      s.closers = [] ∧ s.log = [.reject 2 1, .close 3 0 true, .reject 1 1, .listen 0 0] := by
+    obtain ⟨n, h, p⟩ := k
+    cases n <;> runF_simp
+  obtain ⟨s, hr, h1, h2⟩ := h
+  exact ⟨s, reachable_of_run .init _ hr, h1, h2⟩
+
+/-- the second finding's schedule on the repaired relation: Listen, one open, Close, Accept — Accept errors and
+    the buffered forward was rejected by Close's drain -/
+theorem accept_after_close_schedule_fixed (k : Key) :
+    ∃ s, ReachableF s ∧
+      s.log = [.accept 4 0 none, .close 3 0 true, .reject 1 1, .listen 0 0] := by
+  have h : ∃ s, runF [.listenCall 0 k false, .addRun 0, .fwdSend (fw 1 k), .hTake k.net, .hSend k.net,
+      .closeCall 3 0 true, .closeRun 3, .acceptCall 4 0, .accRun 4] = some s ∧
+      s.log = [.accept 4 0 none, .close 3 0 true, .reject 1 1, .listen 0 0] := by
+    obtain ⟨n, h, p⟩ := k
+    cases n <;> runF_simp
+  obtain ⟨s, hr, h2⟩ := h
+  exact ⟨s, reachable_of_run .init _ hr, h2⟩
+
+
+/-- the same liveness predicate separates the two relations: false as written, true repaired -/
+theorem closeReturns_separates : ¬ CloseReturns next ∧ CloseReturns nextFixed :=
+  ⟨not_close_returns, close_returns_fixed⟩
 
 end XC.C37
